@@ -123,7 +123,7 @@ def has_tag(s, tags):
         return has_tag(s[2], tags) or has_tag(s[3], tags)
     if t in ("loop", "scope"):
         return has_tag(s[1], tags)
-    if t in ("tryFinally", "tryExcept"):
+    if t in ("tryFinally", "tryExcept", "tryCatch"):
         return has_tag(s[1], tags) or has_tag(s[2], tags)
     return False
 
@@ -162,10 +162,26 @@ def try_finally(body, fin):
     return ("tryFinally", body, fin)
 
 
-def try_except(body, handler):
+def try_except(body, handler, catch_all=False):
+    """`catch_all`: one of the handlers is `except Exception` / `except BaseException` / a bare `except`, so no
+    exception of the body passes uncaught (`tryCatch`); otherwise it may (`tryExcept`)"""
     if not can_raise(body):
         return body
-    return ("tryExcept", body, handler)
+    return ("tryCatch" if catch_all else "tryExcept", body, handler)
+
+
+CATCH_ALL_TYPES = {"Exception", "BaseException"}
+
+
+def is_catch_all(handler):
+    t = handler.type
+    if t is None:
+        return True
+    if isinstance(t, ast.Name):
+        return t.id in CATCH_ALL_TYPES
+    if isinstance(t, ast.Tuple):
+        return any(isinstance(e, ast.Name) and e.id in CATCH_ALL_TYPES for e in t.elts)
+    return False
 
 
 # ---------------------------------------------------------------------------------------------------------
@@ -461,6 +477,11 @@ class Translator:
                     return [self.opaque("recursive call of %s inside a loop" % name)]
                 if fr is not self.frames[-1]:
                     return [self.opaque("mutual recursion through %s" % name)]
+                changed = self.changed_params(fn, call)
+                if changed:
+                    # the retry runs with other arguments than this activation: it is not an iteration of the
+                    # same loop (e.g. `exclude` dropped: the `in exclude` test is dead in the retry)
+                    return [self.opaque("retry of %s does not pass %s through" % (name, ", ".join(changed)))]
                 fr.recursive = True
                 return [("cont",)]
         if len(self.frames) > MAX_INLINE_DEPTH:
@@ -496,6 +517,43 @@ class Translator:
         body = self.method_body(cls, fn, handles, ret_flag, consts)
         return [scope(body, "inlined %s.%s" % (cls, name))]
 
+    @staticmethod
+    def changed_params(fn, call):
+        """parameters of `fn` (other than self) that a recursive call does not pass through unchanged
+        (`p` positionally in its place or `p=p`); `*args` / `**kwargs` count as changed"""
+        params = [a.arg for a in fn.args.args][1:] + [a.arg for a in fn.args.kwonlyargs]
+        got = {}
+        for i, a in enumerate(call.args):
+            if isinstance(a, ast.Starred) or i >= len(fn.args.args) - 1:
+                return ["*args"]
+            got[fn.args.args[i + 1].arg] = a
+        for k in call.keywords:
+            if k.arg is None:
+                return ["**kwargs"]
+            got[k.arg] = k.value
+        out = [p for p in params if not (isinstance(got.get(p), ast.Name) and got[p].id == p)]
+        if fn.args.vararg or fn.args.kwarg:
+            out.append("*args/**kwargs")
+        return out
+
+    def is_self_call(self, value):
+        """`yield self.<the function being translated>(…)`"""
+        v = value.value if isinstance(value, ast.Yield) else value
+        return (isinstance(v, ast.Call) and isinstance(v.func, ast.Attribute) and self.text(v.func.value) == "self"
+                and v.func.attr == self.fr.fn.name)
+
+    def retry_not_tail(self, st, nxt):
+        """a self-recursive retry becomes `cont`, which is right only when its result is what the caller returns:
+        `x = yield self.f(…)` must be followed by `return x`, `yield self.f(…)` by `return` / the end"""
+        if isinstance(st, ast.Assign) and self.is_self_call(st.value):
+            ok = (len(st.targets) == 1 and isinstance(st.targets[0], ast.Name) and isinstance(nxt, ast.Return)
+                  and isinstance(nxt.value, ast.Name) and nxt.value.id == st.targets[0].id)
+            return not ok
+        if isinstance(st, ast.Expr) and self.is_self_call(st.value):
+            ok = nxt is None or (isinstance(nxt, ast.Return) and nxt.value is None)
+            return not ok
+        return False
+
     def method_body(self, cls, fn, handles, ret_flag, consts=None):
         fr = Frame(cls, fn, handles, ret_flag)
         fr.consts = dict(consts or {})
@@ -527,6 +585,10 @@ class Translator:
                 nxt = stmts[i + 1] if i + 1 < len(stmts) else None
                 out.append(self.tr_race(race, nxt))
                 i += 2
+                continue
+            if self.retry_not_tail(st, stmts[i + 1] if i + 1 < len(stmts) else None):
+                out.append(self.opaque("retry of %s is not in tail position" % self.fr.fn.name))
+                i += 1
                 continue
             out.append(self.tr_stmt(st))
             i += 1
@@ -843,7 +905,7 @@ class Translator:
                 for h in reversed(st.handlers):
                     hb = self.branch(h.body)
                     hs = hb if hs[0] == "skip" and h is st.handlers[-1] else ("ite", ".any", hb, hs)
-                body = try_except(body, hs)
+                body = try_except(body, hs, any(is_catch_all(h) for h in st.handlers))
             if st.finalbody:
                 body = try_finally(body, self.branch(st.finalbody))
             return body
@@ -860,6 +922,9 @@ class Translator:
             cls = None
             if isinstance(st.exc, ast.Call) and isinstance(st.exc.func, ast.Name):
                 cls = st.exc.func.id
+            if st.exc is None:
+                # bare `raise` in a handler: the caught exception goes on (not a refusal of this method's own)
+                return ("raise", "remote", "re-raise of the caught exception")
             if kind is None:
                 kind = ERROR_KIND.get(cls, "remote" if isinstance(st.exc, ast.Name) else "other")
             return seq(ev + [("raise", kind, cls)])
@@ -997,7 +1062,7 @@ def render_term(s, ind):
         return [P + "loop"] + paren(render_term(s[1], ind + 1))
     if t == "scope":
         return [P + "-- " + s[2], P + "scope"] + paren(render_term(s[1], ind + 1))
-    if t in ("tryFinally", "tryExcept"):
+    if t in ("tryFinally", "tryExcept", "tryCatch"):
         return [P + t] + paren(render_term(s[1], ind + 1)) + paren(render_term(s[2], ind + 1))
     raise ValueError(t)
 
@@ -1093,7 +1158,7 @@ def opaque_list(tab):
             walk(s[2], acc), walk(s[3], acc)
         elif s[0] in ("loop", "scope"):
             walk(s[1], acc)
-        elif s[0] in ("tryFinally", "tryExcept"):
+        elif s[0] in ("tryFinally", "tryExcept", "tryCatch"):
             walk(s[1], acc), walk(s[2], acc)
 
     for m in tab["methods"]:
